@@ -133,6 +133,11 @@ namespace sim
       w.Int(p.pct_k);
       w.Key("victim");
       w.Int(p.victim);
+      if (p.preempt)
+        {
+          w.Key("preempt");
+          w.Uint(p.preempt);
+        }
       w.Key("step_cap");
       w.Uint(p.step_cap);
       w.Key("script");
@@ -155,6 +160,7 @@ namespace sim
       if (v.HasMember("pct_k")) p.pct_k = v["pct_k"].GetInt();
       if (v.HasMember("victim")) p.victim = v["victim"].GetInt();
       if (v.HasMember("step_cap")) p.step_cap = v["step_cap"].GetUint();
+      if (v.HasMember("preempt")) p.preempt = v["preempt"].GetUint();
       script.clear();
       if (v.HasMember("script") && v["script"].IsArray())
         for (auto &x : v["script"].GetArray())
@@ -259,10 +265,15 @@ namespace sim
               w.String(o.via.c_str());
             }
         }
-      if (o.op == "dist")
+      if (o.op == "dist" || o.op == "put")
         {
           w.Key("name");
           w.String(o.name.c_str());
+        }
+      if (o.op == "put")
+        {
+          w.Key("file");
+          w.String(o.file.c_str());
         }
       if (!o.eq.empty())
         {
@@ -444,6 +455,16 @@ namespace sim
           w.Key("oracle");
           w.String(s.oracle.c_str());
         }
+      if (s.alloc_recycle)
+        {
+          w.Key("alloc_recycle");
+          w.Int(s.alloc_recycle);
+        }
+      if (s.cold)
+        {
+          w.Key("cold");
+          w.Bool(true);
+        }
       if (s.engine_model)
         {
           w.Key("engine_model");
@@ -523,6 +544,8 @@ namespace sim
     if (d.HasMember("run") && d["run"].IsUint64()) s.run = d["run"].GetUint64();
     if (d.HasMember("oracle") && d["oracle"].IsString()) s.oracle = d["oracle"].GetString();
     if (d.HasMember("engine_model") && d["engine_model"].IsBool()) s.engine_model = d["engine_model"].GetBool();
+    if (d.HasMember("cold") && d["cold"].IsBool()) s.cold = d["cold"].GetBool();
+    if (d.HasMember("alloc_recycle") && d["alloc_recycle"].IsInt()) s.alloc_recycle = d["alloc_recycle"].GetInt();
     if (d.HasMember("files") && d["files"].IsObject())
       for (auto &m : d["files"].GetObject())
         s.files[m.name.GetString()] = read_bytes(m.value);
